@@ -214,6 +214,8 @@ class TreeHeapMixin:
           z3.Implies(kkind(e) == K_INDEX, z3.And(kisint(e), khash(e))),
           z3.Implies(z3.Or(kkind(e) == K_RESERVED, kkind(e) == K_LITERAL), z3.And(z3.Not(kisint(e)), khash(e))))))
       return VKeyPath(arr, lo, hi)
+    if ty == 'set[obj]':
+      return self.fresh_set(name)
     if ty == 'parr':        # pointwise array of non-negative finite numbers
       t = z3.Real(self.path.fresh_name(name))
       return VPArr(t, False)
@@ -231,6 +233,49 @@ class TreeHeapMixin:
     if kind == 'tkey':
       return VTKey(t)
     return super().wrap(kind, t)
+
+  # ---- finite sets of objects (A2) ---------------------------------------------------------------------
+  def set_facts(self, st):
+    """Cardinality facts linking the size of a finite set with its membership predicate (0, 1 and 2-or-more)."""
+    x, y = z3.Const(self.path.fresh_name('x'), Obj), z3.Const(self.path.fresh_name('y'), Obj)
+    self.assume(st.size >= 0)
+    self.assume(z3.ForAll([x], z3.Implies(st.has[x], st.size >= 1)))
+    self.assume(z3.Implies(st.size >= 1, z3.Exists([x], st.has[x])))
+    self.assume(z3.ForAll([x, y], z3.Implies(z3.And(st.has[x], st.has[y], x != y), st.size >= 2)))
+    self.assume(z3.Implies(st.size >= 2, z3.Exists([x, y], z3.And(st.has[x], st.has[y], x != y))))
+    return st
+
+  def fresh_set(self, name):
+    return self.set_facts(VSet(z3.Array(self.path.fresh_name(name + '.has'), Obj, B), z3.Int(self.path.fresh_name(name + '.size'))))
+
+  def set_of(self, items):
+    has, size = z3.K(Obj, z3.BoolVal(False)), z3.IntVal(0)
+    for v in items:
+      t = self.to_obj(v)
+      size = z3.If(has[t], size, size + 1)
+      has = z3.Store(has, t, True)
+    return self.set_facts(VSet(has, z3.simplify(size)))
+
+  def set_method(self, st, name, a, k):
+    other = a[0] if a else None
+    if isinstance(other, (VTuple, VList)):
+      other = self.set_of(other.items)
+    if name in ('intersection', 'union') and isinstance(other, VSet):
+      x = z3.Const(self.path.fresh_name('x'), Obj)
+      has = z3.Array(self.path.fresh_name(f'{name}.has'), Obj, B)
+      size = z3.Int(self.path.fresh_name(f'{name}.size'))
+      comb = z3.And if name == 'intersection' else z3.Or
+      self.assume(z3.ForAll([x], has[x] == comb(st.has[x], other.has[x])))
+      r = self.set_facts(VSet(has, size))
+      inter_size = size if name == 'intersection' else z3.Int(self.path.fresh_name('meet.size'))
+      if name == 'union':          # |A u B| = |A| + |B| - |A n B|; the meet is empty iff no common member
+        self.assume(size == st.size + other.size - inter_size)
+        self.assume(inter_size >= 0)
+        self.assume((inter_size == 0) == z3.Not(z3.Exists([x], z3.And(st.has[x], other.has[x]))))
+      else:
+        self.assume(z3.And(size <= st.size, size <= other.size))
+      return r
+    raise Unsupported(f'set method {name}')
 
   def new_node(self, kind, name='node'):
     """Allocates a node: a constant outside the allocated set (hence distinct from every known node)."""
@@ -374,6 +419,10 @@ class TreeHeapMixin:
     raise Unsupported(f'method {name} of a tree node')
 
   def getattr_(self, v, name):
+    if isinstance(v, VFn) and v.name == 'itertools.chain' and name == 'from_iterable':
+      return VFn('itertools.chain.from_iterable', impl=self.lib_itertools_chain_from_iterable)
+    if isinstance(v, VSet):
+      return VFn(f'set.{name}', impl=lambda it, a, k, _v=v, _n=name: it.set_method(_v, _n, a, k))
     if isinstance(v, VTree):
       if name in ('append', 'get'):
         t = v.t
@@ -388,8 +437,23 @@ class TreeHeapMixin:
       raise Unsupported('.value of a key that is not a Literal')
     return super().getattr_(v, name)
 
+  def bi_set(self, it, a, k):
+    if not a:
+      return self.set_of([])
+    v = self.unopt(a[0])
+    if isinstance(v, VSet):
+      return v
+    return self.set_of(self.iter_concrete(v))
+
+  def contains(self, container, x):
+    if isinstance(container, VSet):
+      return container.has[self.to_obj(x)]
+    return super().contains(container, x)
+
   def bi_len(self, it, a, k):
     v = a[0]
+    if isinstance(v, VSet):
+      return VInt(v.size)
     if isinstance(v, VKeyPath):
       return VInt(v.n)
     if isinstance(v, VTree):
@@ -559,6 +623,8 @@ class TreeHeapMixin:
     return super().ite(c, a, b)
 
   def truth(self, v):
+    if isinstance(v, VSet):
+      return v.size > 0
     if isinstance(v, VKeyPath):
       return v.hi - v.lo > 0
     if isinstance(v, VTKey):
@@ -605,6 +671,8 @@ class TreeHeapMixin:
     return self.pre_heap()['alloc']
 
   def binop(self, op, a, b):
+    if isinstance(a, VSet) and isinstance(b, VSet) and isinstance(op, (ast.BitOr, ast.BitAnd)):
+      return self.set_method(a, 'union' if isinstance(op, ast.BitOr) else 'intersection', [b], {})
     if isinstance(op, ast.BitOr) and all(isinstance(x, (VClass, VModule, VTuple)) for x in (a, b)):
       items = []
       for x in (a, b):
